@@ -782,7 +782,7 @@ SimilarityLaw ==
          V2 == Verts(s2, c.rot)
          K2 == PolyCtx(V2, CaseDen(s2, V2))
      IN  /\ V2 = [i \in 1..Len(out.verts) |-> PAdd(PScale(QI(2), out.verts[i]), o)]
-         /\ \A n \in 1..NG : (n % 4 = 0 /\ out.res[n] # 2) =>
+         /\ \A n \in 1..NG : (n % 8 = 0 /\ out.res[n] # 2) =>
                ((out.res[n] = 1) <=> ExpInsideZ(s2, K2, ZPt(PAdd(PScale(QI(2), GridPt(n)), o), K2.D)))
 
 \* --- generic angles: the same laws at rotations / directions that are no multiples of 30 degrees
